@@ -7,6 +7,7 @@ package simio
 import (
 	"errors"
 	"fmt"
+	"time"
 
 	"github.com/markkurossi/mpc/ot"
 
@@ -41,6 +42,10 @@ type End struct {
 	// the messages of this direction) and may modify it.
 	Tamper func(idx int, m *Msg)
 	SentN  int
+	// SlowSend > 0: SendData consumes its argument late - it is a scheduling point before the
+	// payload is read, and one call in SlowSend first blocks for a millisecond of virtual time (a
+	// transport with back-pressure). The caller's buffer belongs to SendData until it returns.
+	SlowSend int
 }
 
 // ErrClosed is returned when the peer is gone.
@@ -118,6 +123,13 @@ func (e *End) SendUint32(val int) error { return e.send(Msg{Kind: KUint32, U: in
 
 // SendData implements ot.IO.
 func (e *End) SendData(val []byte) error {
+	if e.SlowSend > 0 && rt.Active() {
+		rt.Yield()
+		if rt.Choose(rt.SFault, e.SlowSend) == 0 {
+			rt.Reach("ot-io.send-blocked-before-consuming-payload")
+			rt.Sleep(time.Millisecond)
+		}
+	}
 	return e.send(Msg{Kind: KData, Data: append([]byte(nil), val...)})
 }
 
